@@ -23,7 +23,7 @@ RULE = ('unit: DateTimeFormatUtil over full ranges (luis_time/short_time 24x60x{
         'to_pm, all_str_to_pm); match_to_time on every match of AtRegex/TimeRegex1..11/ConnectNumRegex over generated '
         'English time strings (digits x minutes x seconds x am/pm spellings x prefixes x suffixes x written forms); '
         '_date_time_resolution on synthetic slots; merge_date_and_time on <date> at <time>. pipeline: HH:MM:SS '
-        '(thorough all 86,400; quick boundary set {0,1,9,10,11,12,13,23}x{0,1,30,59}x{none,0,59} + 3,000 seeded), H:MM, '
+        '(thorough all 86,400; quick boundary set {0,1,9,10,11,12,13,23}x{0,1,30,59}x{none,0,59} + 1,500 seeded), H:MM, '
         '12-hour spellings x {am,pm,a.m.,p.m.,none}, <date expr> at <time> x references; contracts/C07.json: 24-hour and '
         'am/pm-designator spellings of es, es-mx, fr, pt, it, de, nl, zh (every hour 1..12 x clock forms x designators); unit: '
         'match_to_time incl. adjust_by_prefix/suffix on real matches of every culture (Specs texts with every hour substituted), '
@@ -84,7 +84,7 @@ def time_strings(ctx):
     # Unicode digits (\d is Unicode-aware), full-width colon
     out += ['٣:٣٠', '١٢:٠٠ pm', '７:３０', '０:３０', '7：30']
     r = ctx.rng('timestr')
-    for _ in range(6000 if ctx.thorough else 1500):
+    for _ in range(6000 if ctx.thorough else 500):
         h, m, s = r.randint(0, 24), r.randint(0, 59), r.randint(0, 59)
         form = r.choice(['%d:%02d', '%02d:%02d', '%d:%02d:%02d', '%02d:%02d:%02d', '%d', '%d.%02d'])
         core = form % ((h, m, s)[:form.count('%')])
@@ -590,7 +590,7 @@ def pipeline(ctx, variant):
         hms = [(h, m, s) for h in range(24) for m in range(60) for s in range(60)]
     else:
         B = [(h, m, s) for h in (0, 1, 9, 10, 11, 12, 13, 23) for m in (0, 1, 30, 59) for s in (None, 0, 59)]
-        hms = B + [(r.randrange(24), r.randrange(60), r.randrange(60)) for _ in range(3000)]
+        hms = B + [(r.randrange(24), r.randrange(60), r.randrange(60)) for _ in range(1500)]
     for i, (h, m, s) in enumerate(hms):
         ref = REFS[i % len(REFS)]
         carrier = carriers[i % len(carriers)] if not ctx.thorough else '%s'
